@@ -1139,6 +1139,7 @@ void SZ_compress_args_uint32_withinRange(unsigned char** newByteData, uint32_t *
 	tdps->isLossless = 0;
 	//tdps->exactByteSize = 4;
 	tdps->exactDataNum = 1;
+	tdps->dataTypeSize = sizeof(uint32_t); //it goes into the flag byte of the stream
 	tdps->exactDataBytes_size = 4;
 
 	uint32_t value = oriData[0];
